@@ -565,6 +565,13 @@ func (sp *subProcess) run(ctx context.Context, out tracing.ITracer) {
 					sp.active.Add(1)
 					defer sp.active.Add(-1)
 
+					// Subscribe before the inner start events are triggered so
+					// that no inner trace (nor the cease flow trace of a very
+					// short sub-process) can be missed.
+					traces := sp.subTracer.Subscribe()
+					verifhook.Point("sub.subscribed")
+					defer sp.subTracer.Unsubscribe(traces)
+
 					if err := sp.startAll(ctx); err != nil {
 						subProcessId := ""
 						if pid, present := sp.element.Id(); present {
@@ -577,9 +584,6 @@ func (sp *subProcess) run(ctx context.Context, out tracing.ITracer) {
 						return
 					}
 
-					traces := sp.subTracer.Subscribe()
-					verifhook.Point("sub.subscribed")
-					defer sp.subTracer.Unsubscribe(traces)
 				loop:
 					for {
 						var trace tracing.ITrace
@@ -621,7 +625,10 @@ func (sp *subProcess) NextAction(ctx context.Context, flow Flow) chan IAction {
 		// StartAll cease flow monitor
 		sender := sp.subTracer.RegisterSender()
 		tracer := sp.wr.tracer
-		go sp.ceaseFlowMonitor(tracer)(ctx, sender)
+		// The monitor observes (and reports on) the inner tracer: that is
+		// where the inner flow nodes send their traces and where run()
+		// waits for the cease flow trace.
+		go sp.ceaseFlowMonitor(sp.subTracer)(ctx, sender)
 		go sp.run(ctx, tracer)
 	}
 
